@@ -1,35 +1,68 @@
 ---- MODULE TrackerMC ----
-(* Exhaustive design check of the tracker's state machine and reason table: the environment (the workflow components of one
-   node) emits the events of each duty roughly in workflow order -- a later step (any number of steps may be missing), the
-   same step again (a duplicate, possibly with a different error), a late repetition of the first step -- with any error
-   kind at any step, any validator subset, partial signatures of any share with either message root; deadlines and
-   deletions pass at any time (a deletion only after the analysis deadline, as tracker.New requires).
-   Every invariant is evaluated for every duty in every reachable state. *)
+(* Exhaustive design check of the tracker, in two parts.
+
+   TableSpec (case analysis: every initial state IS a case, there are no transitions): the events of the duties of one
+   dependency family of one slot (e.g. proposer + randao) are drawn from a repertoire of event profiles -- nothing; a single
+   event at any step with any error kind; the same step twice with different errors (first versus last event); a scheduled
+   duty (fetcher event) that got stuck at a later step; partial signatures of two shares with equal / different message
+   roots, duplicated, for scheduled and unscheduled validators.  The duty under analysis ranges over the full repertoire,
+   its prerequisite duties over the single-event profiles.  The invariants of Tracker.tla are evaluated for every duty of
+   every case.
+
+   MCSpec (state machine): calls in any order for a small universe, deadlines and deletions at any time (a deletion only
+   after the analysis deadline, as tracker.New requires), late events: analysed at most once, only at the deadline, late
+   events dropped, nothing instrumented in between; plus all table invariants in every reachable state. *)
 EXTENDS Tracker
-CONSTANTS MCTypes,     \* duty types of the one slot that is explored (a dependency family)
-          MCPKs, MCErrs, MCRoots, MCN, MCIncl, MaxCalls
-VARIABLES cur,         \* environment: furthest step emitted per duty
-          ncalls
-mcvars == <<vars, cur, ncalls>>
+CONSTANTS MCTypes,     \* duty types of the one slot that is explored; MCMain is the duty type under analysis
+          MCMain, MCPKs, MCErrs, MCRoots, MCN, MCIncl, MCSteps, MaxCalls
+VARIABLES ncalls
+mcvars == <<vars, ncalls>>
 MCDuties == {Duty(1, t) : t \in MCTypes}
-MCInit == /\ Init
-          /\ conf = [n |-> MCN, from |-> 0, incl |-> MCIncl, exempt |-> {}, rootasc |-> <<"x", "y">>]
-          /\ cur = [d \in MCDuties |-> 0] /\ ncalls = 0
+MCConf == [n |-> MCN, from |-> 0, incl |-> MCIncl, exempt |-> {}, rootasc |-> <<"x", "y">>]
 EnvLast(t) == IF t \in MCIncl THEN INC ELSE BC
-NextSteps(d) == ((cur[d]..INC) \cup (IF cur[d] >= 3 THEN {F} ELSE {})) \ {0, VAPI}
-MCCall == \E d \in MCDuties : \E step \in NextSteps(d) : \E err \in MCErrs : \E pks \in SUBSET MCPKs \ {{}} :
+
+---------------------------------------------------------------------------------------------------
+E1(s, e, pk) == [step |-> s, pk |-> pk, err |-> e, share |-> IF s \in ParSigSteps THEN 1 ELSE 0,
+                 root |-> IF s \in ParSigSteps THEN "x" ELSE ""]
+PS(s, pk, sh, root) == [step |-> s, pk |-> pk, err |-> "nil", share |-> sh, root |-> root]
+AllSteps(t) == (1..EnvLast(t)) \ {VAPI}
+PK1 == CHOOSE p \in MCPKs : TRUE
+Single(t) == {<<>>} \cup {<<E1(s, e, PK1)>> : s \in AllSteps(t), e \in MCErrs}
+Full(t) ==
+  Single(t)
+  \cup {<<E1(s, e1, PK1), E1(s, e2, PK1)>> : s \in AllSteps(t), e1 \in MCErrs, e2 \in MCErrs}
+  \cup {<<E1(F, "nil", PK1), E1(s, e, PK1)>> : s \in AllSteps(t) \ {F}, e \in MCErrs}
+  \cup {<<E1(s, e, PK1), E1(F, "nil", PK1)>> : s \in AllSteps(t) \ {F}, e \in MCErrs}           \* a late fetcher event
+  \cup {<<E1(s1, e, PK1), E1(s2, "nil", PK1)>> : s1 \in AllSteps(t), s2 \in AllSteps(t), e \in MCErrs}   \* out of order
+  \cup UNION {UNION {{<<E1(F, "nil", pf), PS(PSI, p1, 1, "x"), PS(PSE, p2, 2, r)>>,
+                      <<E1(F, "nil", pf), PS(PSI, p1, 1, "x"), PS(PSE, p2, 2, r), PS(PSE, p2, 2, "x")>>,
+                      <<PS(PSE, p1, 2, r), PS(PSE, p2, 2, "x"), PS(PSE, p2, 1, "x"), E1(F, "nil", pf)>>}
+                     : r \in MCRoots} : <<pf, p1, p2>> \in MCPKs \X MCPKs \X MCPKs}
+TableInit == /\ conf = MCConf /\ ncalls = 0
+             /\ anaAdded = {} /\ anaExp = {} /\ delAdded = {} /\ delExp = {} /\ aggSup = FALSE /\ conSup = FALSE
+             /\ obs = {} /\ reports = <<>>
+             /\ \E m \in Full(MCMain) : \E f \in [MCDuties \ {Duty(1, MCMain)} -> UNION {Single(t) : t \in MCTypes \ {MCMain}}] :
+                  events = [d \in MCDuties |-> IF d.type = MCMain THEN m ELSE f[d]]
+TableSpec == TableInit /\ [][UNCHANGED mcvars]_mcvars
+\* the observation function is total on every case and never reports a duty both ways or twice
+ObsSane == \A d \in Known : LET o == AnalysisObs(d, events) IN
+             /\ Cardinality({r \in o : r.m = "expect_duties_total"}) <= 1
+             /\ ~(\E r \in o : r.m = "success_duties_total") \/ ~(\E r \in o : r.m \in {"failed_duties_total", "log_failed"})
+             /\ \A r \in o : r.v > 0
+
+---------------------------------------------------------------------------------------------------
+MCInit == Init /\ conf = MCConf /\ ncalls = 0
+MCCall == \E d \in MCDuties : \E step \in MCSteps : \E err \in MCErrs : \E pks \in SUBSET MCPKs \ {{}} :
             /\ ncalls < MaxCalls /\ step <= EnvLast(d.type)
             /\ \E sh \in (IF step \in ParSigSteps THEN 1..MCN ELSE {0}) : \E root \in (IF step \in ParSigSteps THEN MCRoots ELSE {""}) :
                  Call(d, step, pks, err, sh, root)
-            /\ cur' = [cur EXCEPT ![d] = IF step > cur[d] THEN step ELSE cur[d]]
             /\ ncalls' = ncalls + 1
 MCNext == \/ MCCall
-          \/ \E d \in MCDuties : d \notin anaExp /\ Deadline(d) /\ UNCHANGED <<cur, ncalls>>
-          \/ \E d \in MCDuties : d \in anaExp /\ d \notin delExp /\ Delete(d) /\ UNCHANGED <<cur, ncalls>>
+          \/ \E d \in MCDuties : d \notin anaExp /\ Deadline(d) /\ UNCHANGED ncalls
+          \/ \E d \in MCDuties : d \in anaExp /\ d \notin delExp /\ Delete(d) /\ UNCHANGED ncalls
 MCSpec == MCInit /\ [][MCNext]_mcvars
 MCOnlyAtDeadline == [][(reports' # reports \/ obs' # {}) => \E d \in anaExp' \ anaExp : reports' = Append(reports, Last(reports'))]_mcvars
 MCLateDropped == [][\A d \in anaExp : d \in DOMAIN events' => (d \in DOMAIN events /\ events'[d] = events[d])]_mcvars
-\* obs and reports are outputs / history: they do not influence behaviour (reports only through AnalysedOnce, which the
-\* expiry sets already determine)
-View == <<conf, events, anaAdded, anaExp, delAdded, delExp, aggSup, conSup, cur, ncalls>>
+\* a duty that was analysed had events, and its deadline has passed
+AnalysedHadDeadline == \A i \in DOMAIN reports : reports[i].d \in anaExp /\ reports[i].d \in anaAdded
 ====
